@@ -1,5 +1,5 @@
-(* Marple's fast recursions under the loop-IR tie: the order-0 branches, the argument check, and the first pass of
-   modcovar_marple (order 1), for ALL inputs.
+(* Marple's fast recursions under the loop-IR tie: the order-0 branches, the argument check, and order 1 (one full pass
+   of the main loop) of both routines, for ALL inputs.
 
    [prog_arcovar_marple_gen0] / [prog_modcovar_marple_gen0] are, verbatim (between the BEGIN/END markers), the loop-IR
    programs that tools/props/_loopir.py generates from spectrum.covar.arcovar_marple and spectrum.modcovar.modcovar_marple
@@ -19,8 +19,11 @@
                                 the main loop (the lag-1 accumulation loop, the stores into R, A, the order update of P, the early
                                 return with its normalisation .5*P/float(N-1) and the appended list), against the model's
                                 simultaneous-update reading; closed form [mod1_model]
-   NOT PROVED: arcovar_marple at orders >= 1, modcovar_marple at orders >= 2 (the time-update blocks and the in-place symmetric
-   loops); they stay with the exact evaluation tie, zero tolerance, on every run. *)
+     arcovar_marple_ir_order1   order = 1: the run returns (af, pf, ab, pb, []) with (af, pf, ab, pb) = Model.CovarMarple.arcovar_marple x 1:
+                                the pass m = 0 of the main loop up to its break (lag-1 accumulation loop, stores into r, af, ab, c, d,
+                                the updates of pf, pb, delta, gamma, the normalisation by float(N-1)); closed form [cov1_model]
+   NOT PROVED: orders >= 2 of either routine (the time-update blocks, the in-place loops over k, the sign checks); they stay with
+   the exact evaluation tie, zero tolerance, on every run.  Neither is "Marple = least squares" proved at any order >= 1 (exact test). *)
 From Coq Require Import String ZArith List Lia Bool.
 Require Import Spectrum.Theory.Ops Spectrum.Theory.Sum Spectrum.Theory.Vec Spectrum.Model.LoopIR Spectrum.Model.CovarMarple
                Spectrum.Proofs.LoopIRLevinson.
@@ -601,9 +604,139 @@ Proof.
   replace (1 / two * (P0 * (1 - nrm2 C1))) with (P0 * (1 - nrm2 C1) / two) by (field; apply two_nz).
   rewrite EC1, EP0. reflexivity.
 Qed.
+
+(* ---------------- arcovar_marple, order = 1: the first pass of the main loop (ends with the break) ---------------- *)
+Definition cov_temp_body : stmt :=
+  SAssign 20 (EBin BAdd (EVar 20) (EBin BMul (EIndex (EVar 0) (EVar 21)) (EConj (EIndex (EVar 0) (EBin BSub (EBin BSub (EVar 21) (EVar 16)) (EInt 1)))))).
+
+Definition loopvar (v : value) (lo : Z) (i : nat) : value := match i with O => v | S j => VI (lo + Z.of_nat j) end.
+
+Lemma cov_temp_loop_ok (mid1 : list value) (mid2 : list value) (post : list value) tx (x : list F) s0 v21 :
+  forall (Hm1 : length mid1 = 15%nat) (Hm2 : length mid2 = 3%nat),
+  for_loop (exec cov_temp_body) 21 (range_from 1 1 (length x - 1))
+    (VArr tx x :: mid1 ++ VI 0 :: mid2 ++ VF s0 :: v21 :: post) =
+  (VArr tx x :: mid1 ++ VI 0 :: mid2 ++ VF (lsum (length x - 1) (fun i => nthF x (i + 1) * conj (nthF x i)) s0) :: loopvar v21 1 (length x - 1) :: post, CNormal).
+Proof.
+  intros Hm1 Hm2. set (N := length x).
+  destruct mid1 as [|a1 [|a2 [|a3 [|a4 [|a5 [|a6 [|a7 [|a8 [|a9 [|a10 [|a11 [|a12 [|a13 [|a14 [|a15 [|]]]]]]]]]]]]]]]]; try discriminate Hm1.
+  destruct mid2 as [|b1 [|b2 [|b3 [|]]]]; try discriminate Hm2.
+  cbn [app].
+  destruct (for_loop_inv_from (exec cov_temp_body) 21%nat
+              (fun i s => s = VArr tx x :: [a1; a2; a3; a4; a5; a6; a7; a8; a9; a10; a11; a12; a13; a14; a15] ++ VI 0 :: [b1; b2; b3] ++
+                              VF (lsum i (fun i => nthF x (i + 1) * conj (nthF x i)) s0) :: loopvar v21 1 i :: post)
+              1%Z (N - 1)%nat
+              (VArr tx x :: [a1; a2; a3; a4; a5; a6; a7; a8; a9; a10; a11; a12; a13; a14; a15] ++ VI 0 :: [b1; b2; b3] ++ VF s0 :: v21 :: post)) as [s' [E Hw]].
+  - reflexivity.
+  - intros i s Hi ->. eexists. split; [|reflexivity].
+    cbn [app]. unfold cov_temp_body. ev. fold N.
+    rewrite (norm_index_ok N (1 + Z.of_nat i)) by lia. ev. fold N.
+    rewrite (norm_index_ok N (1 + Z.of_nat i - 0 - 1)) by lia. ev.
+    replace (Z.to_nat (1 + Z.of_nat i)) with (i + 1)%nat by lia.
+    replace (Z.to_nat (1 + Z.of_nat i - 0 - 1)) with i by lia.
+    reflexivity.
+  - subst s'. cbn [app] in E. exact E.
+Qed.
+
+Lemma sumL_mk0 (f : nat -> F) : sumL (mk 0 f) = 0. Proof. reflexivity. Qed.
+
+(* closed form of the model at order 1 *)
+Definition c1_T (x : list F) : F := sumf (length x - 1) (fun i => nthF x (i + 1) * conj (nthF x i)).
+Definition c1_pf0 (x : list F) : F := sumL (map nrm2 x) - nrm2 (nthF x 0).
+Definition c1_pb0 (x : list F) : F := sumL (map nrm2 x) - nrm2 (nthF x (length x - 1)).
+
+Lemma cov1_model (x : list F) :
+  x <> [] ->
+  arcovar_marple x 1 =
+  Some (mk (length x) (fun k => if (k =? 0)%nat then - c1_T x * (1 / c1_pb0 x) else 0),
+        (c1_pf0 x - nrm2 (c1_T x) * (1 / c1_pb0 x)) / ofnat (length x - 1),
+        mk (length x) (fun k => if (k =? 0)%nat then - (1 / c1_pf0 x) * conj (c1_T x) else 0),
+        (c1_pb0 x - nrm2 (c1_T x) * (1 / c1_pf0 x)) / ofnat (length x - 1)).
+Proof.
+  intros Hx. pose proof (len_pos x Hx) as HN. unfold c1_T, c1_pf0, c1_pb0. set (N := length x) in *.
+  unfold arcovar_marple. fold N. replace (N <? 1)%nat with false by (symmetry; apply Nat.ltb_ge; lia).
+  cbn [cm_iter]. unfold cm_part1. cbn [cm_af cm_pf cm_ab cm_pb]. unfold cm_init. cbn [cm_af cm_pf cm_ab cm_pb cm_c cm_d cm_r cm_de cm_ga]. fold N.
+  rewrite !sumL_mk0, !sumL_mk.
+  replace (N - (0 + 1))%nat with (N - 1)%nat by lia. replace (N - 0 - 1)%nat with (N - 1)%nat by lia.
+  rewrite (sumf_ext (N - 1) (fun i => nthF x (i + 0 + 1) * conj (nthF x i)) (fun i => nthF x (i + 1) * conj (nthF x i)))
+    by (intros i _; do 2 f_equal; lia).
+  set (T := sumf (N - 1) (fun i => nthF x (i + 1) * conj (nthF x i))).
+  replace (T + 0) with T by ring.
+  match goal with |- Some (?a, ?b, ?c, ?d) = Some (?a', ?b', ?c', ?d') =>
+    assert (a = a') as ->; [|assert (c = c') as ->; [|reflexivity]] end.
+  - apply mk_ext. intros k Hk. change (k <? 0)%nat with false. cbv iota.
+    destruct (k =? 0)%nat; [reflexivity|]. rewrite nth_mk by exact Hk. reflexivity.
+  - apply mk_ext. intros k Hk. change (k <? 0)%nat with false. cbv iota.
+    destruct (k =? 0)%nat; [reflexivity|]. rewrite nth_mk by exact Hk. reflexivity.
+Qed.
+
+Ltac ixs := repeat (progress (rewrite ?updF_length, ?mk_length; ev)).
+
+Theorem arcovar_marple_ir_order1 (t : bool) (x : list F) :
+  x <> [] ->
+  run feq stop prog_arcovar_marple_gen0 [Some (VArr t x); Some (VI 1)] =
+  match arcovar_marple x 1 with
+  | Some (af, pf, ab, pb) => ORet [VArr false af; VF pf; VArr false ab; VF pb; VArr true []]
+  | None => OErr AssertionError
+  end.
+Proof.
+  intros Hx. pose proof (len_pos x Hx) as HN.
+  set (N := length x) in *.
+  assert (I0 : norm_index N 0 = inl 0%nat) by (apply (norm_index_ok N 0); lia).
+  assert (I1 : norm_index N (Z.of_nat N - 1) = inl (N - 1)%nat).
+  { rewrite norm_index_ok by lia. f_equal. lia. }
+  unfold run, prog_arcovar_marple_gen0. cbn [p_defaults p_body p_nslots p_nparams bind_args bind ok Nat.sub app repeat].
+  erewrite xseq; [|ev; fold N; replace (1 <=? Z.of_nat N)%Z with true by (symmetry; apply Z.leb_le; lia); reflexivity].
+  erewrite xseq; [|ev; reflexivity].
+  erewrite xseq; [|ev; fold N; reflexivity].
+  erewrite xseq; [|ev; reflexivity].
+  erewrite xseq; [|ev; fold N; rewrite I0; ev; reflexivity].
+  erewrite xseq; [|ev; fold N; rewrite I1; ev; reflexivity].
+  do 4 (erewrite xseq; [|ev; reflexivity]).
+  do 5 (erewrite xseq; [|ev; rewrite zlt0, Nat2Z.id; reflexivity]).
+  erewrite xseq; [|ev; rewrite mk_length, I0; ev; fold N; rewrite I1; ev; reflexivity].
+  erewrite xseq; [|ev; rewrite mk_length, I0; ev; fold N; rewrite I0; ev; reflexivity].
+  erewrite xseq; [|ev; change (1 =? 0)%Z with false; cbv iota; reflexivity].
+  erewrite xseq; [|ev; reflexivity].
+  (* the main loop: pass m = 0 ends with the break *)
+  erewrite xseq.
+  2:{ rewrite (exec_for _ _ _ _ _ _ [0%Z; 1%Z]) by reflexivity.
+      cbn [for_loop set].
+      do 5 (erewrite xseq; [|ev; reflexivity]).
+      erewrite xseq.
+      2:{ erewrite exec_for; cycle 1.
+          { ev. fold N. unfold range_vals. change (1 =? 0)%Z with false. cbv iota. rewrite range_len_1.
+            replace (Z.to_nat (Z.of_nat N - (0 + 1))) with (N - 1)%nat by lia. change (0 + 1)%Z with 1%Z. reflexivity. }
+          match goal with |- context [for_loop _ 21%nat _ (_ :: ?a1 :: ?a2 :: ?a3 :: ?a4 :: ?a5 :: ?a6 :: ?a7 :: ?a8 :: ?a9 :: ?a10 :: ?a11 :: ?a12 :: ?a13 :: ?a14 :: ?a15 :: VI 0 :: ?b1 :: ?b2 :: ?b3 :: VF ?s0 :: ?w21 :: ?post)] =>
+            pose proof (cov_temp_loop_ok [a1;a2;a3;a4;a5;a6;a7;a8;a9;a10;a11;a12;a13;a14;a15] [b1;b2;b3] post t x s0 w21 eq_refl eq_refl) as ES end.
+          unfold cov_temp_body in ES. cbn [app] in ES. fold N in ES. rewrite ES. reflexivity. }
+      erewrite xseq; [|ev; rewrite mk_length, I0; ev; reflexivity].
+      erewrite xseq; [|ev; fold N; rewrite I0; ev; rewrite updF_length, mk_length, I0; ev; reflexivity].
+      erewrite xseq; [|ev; change (0 =? 0)%Z with true; cbv iota; reflexivity].
+      do 4 (erewrite xseq; [|ev; reflexivity]).
+      erewrite xseq; [|ev; ixs; rewrite ?I0; ev; ixs; rewrite ?I0; ev; reflexivity].
+      erewrite xseq; [|ev; ixs; rewrite ?I0; ev; ixs; rewrite ?I0; ev; reflexivity].
+      erewrite xseq; [|ev; ixs; rewrite ?I0; ev; ixs; rewrite ?I0; ev; reflexivity].
+      erewrite xseq; [|ev; ixs; rewrite ?I0; ev; ixs; rewrite ?I0; ev; reflexivity].
+      erewrite xseq; [|ev; ixs; rewrite ?I0; ev; ixs; rewrite ?I0; ev; reflexivity].
+      erewrite xseq; [|ev; change (0 =? 0)%Z with true; cbv iota; reflexivity].
+      do 6 (erewrite xseq; [|ev; reflexivity]).
+      erewrite xstop; cycle 1.
+      { ev. change (0 =? 1 - 1)%Z with true. cbn [negb]. cbv iota. reflexivity. }
+      { discriminate. }
+      cbv iota beta. reflexivity. }
+  ev. cbv iota beta.
+  rewrite (cov1_model x Hx). unfold c1_T, c1_pf0, c1_pb0. fold N.
+  set (S := lsum (N - 1) (fun i => nthF x (i + 1) * conj (nthF x i)) (lit 0 0 + lit 0 0)).
+  assert (ESs : S = sumf (N - 1) (fun i => nthF x (i + 1) * conj (nthF x i))).
+  { unfold S. rewrite lsum_sumf, lit_0. ring. }
+  rewrite (nrm2_parts S), !updF_zeros_0 by exact HN.
+  replace (Z.of_nat N - 0 - 1)%Z with (Z.of_nat (N - 1)) by lia. rewrite ofZ_of_nat.
+  rewrite lit_1, sum_left_sumL, ESs. reflexivity.
+Qed.
 End Order0.
 
 Print Assumptions arcovar_marple_ir_assert.
 Print Assumptions arcovar_marple_ir_order0.
+Print Assumptions arcovar_marple_ir_order1.
 Print Assumptions modcovar_marple_ir_order0.
 Print Assumptions modcovar_marple_ir_order1.
